@@ -1217,6 +1217,33 @@ fn main() {
     }
     rep.part("fallback", Value::Object(fb));
 
+    // the quinn endpoint's own share of the property: coalesced receive batches are split back into
+    // the original datagrams by their stride (RecvState::poll_socket). Explored under the
+    // deterministic executor of harness-async over an in-memory socket that coalesces like a
+    // GRO-capable kernel; `./check C19` builds that binary and passes its path.
+    match std::env::var("VERIF_VA_BIN") {
+        Err(_) => machinery("VERIF_VA_BIN not set: ./check C19 builds harness-async and passes its path"),
+        Ok(bin) => {
+            let out = std::process::Command::new(&bin).arg("c19").arg("--tier").arg(if tier == Tier::Thorough { "thorough" } else { "quick" }).output();
+            let out = out.unwrap_or_else(|e| machinery(&format!("cannot run {bin}: {e}")));
+            let text = String::from_utf8_lossy(&out.stdout);
+            let v: Value = text.lines().rev().find_map(|l| serde_json::from_str(l).ok()).unwrap_or_else(|| machinery(&format!("no result from {bin} c19: {}", String::from_utf8_lossy(&out.stderr))));
+            let n = v["executions"].as_u64().unwrap_or(0);
+            if n == 0 || v["batches_with_short_tail_before_last_message"].as_u64().unwrap_or(0) == 0 {
+                machinery("vacuity guard: the receive-batch part explored nothing, or no batch held a coalesced message with a short tail in front of another message");
+            }
+            rep.evaluations += n;
+            rep.exhaustive &= !v["capped"].as_bool().unwrap_or(true);
+            for viol in v["violations"].as_array().cloned().unwrap_or_default() {
+                rep.violation(Violation {
+                    signature: format!("recv-batch:{}", viol["signature"].as_str().unwrap_or("?")),
+                    what: format!("quinn endpoint over a coalescing in-memory socket: {}", viol["what"].as_str().unwrap_or("?")),
+                    replay: json!({"check":"c18","async_replay": viol["replay"], "note": "replay with ./check C18 --replay on a file holding {\"replay\": <async_replay>}"}),
+                });
+            }
+            rep.part("endpoint_receive_batches", v);
+        }
+    }
     rep.assumptions = vec![
         "Linux loopback only: the kernel's lo device stands in for the network; no NIC driver offload paths are exercised.".into(),
         "quinn-udp sets IP_PMTUDISC_PROBE / IPV6_DONTFRAG, so payloads above loopback MTU minus headers fail with EMSGSIZE instead of being fragmented; those cases are executed and counted as expected_emsgsize.".into(),
